@@ -508,7 +508,12 @@ def tagged_item(e):
         vattrs = []
         if v.get("rename") is not None: vattrs.append(f'rename = "{v["rename"]}"')
         if v.get("rename_all"): vattrs.append(f"rename_all = {v['rename_all']}")
-        head = ("    #[deserr(" + ", ".join(vattrs) + ")]\n") if vattrs else ""
+        # the order in which a variant's attributes are written must not matter (they are merged one by one)
+        if v.get("attr_order") == "rename_all_first": vattrs.reverse()
+        if v.get("attr_order") == "two_attributes" and len(vattrs) == 2:
+            head = "".join(f"    #[deserr({a})]\n" for a in reversed(vattrs))
+        else:
+            head = ("    #[deserr(" + ", ".join(vattrs) + ")]\n") if vattrs else ""
         if v.get("fields") is None:
             lines.append(head + f"    {v['ident']},")
         else:
